@@ -71,6 +71,13 @@ CLAIMED = {
             "reference ACL cover and exclusivity.",
             "Trusted: reference interpreter in the check, mc/ref/acl.py; stubbed context (config='empty', no implicit rules, no filter ACL).",
             "DESIGN.md §3 C10"),
+    "C11": ("bounded-exhaustive enumeration of all (S_old,S_new) subset pairs of a 6-8 element VLAN universe x all contiguous line splittings x rule kinds through the shipped rulebooks' make_diff/make_pre/make_patch; emitted commands executed on a VLAN-set machine",
+            "Every pair of subsets, every way of wrapping the range list over 1-3 lines, on the shipped Huawei/Cisco/Nexus rules "
+            "(trunk allow-pass, hybrid tagged/untagged, vlan batch + vlan blocks, stp instance, vlan pool, Cisco vlan / allowed vlan, "
+            "vlan group): the emitted rows are executed in order by an independent VLAN-set machine; final set == S_new and no VLAN "
+            "common to both sets is removed even transiently; expand(collapse(S)) == S.",
+            "Trusted: mc/ref/vlan.py (range parser, set machine, command meaning); print style of old and new identical per dialect.",
+            "DESIGN.md §3 C11"),
     "C12": ("stateless model checking of the real annet.parallel under a controlled scheduler on virtual processes/queues: all interleavings with state de-duplication, plus preemption-bounded DFS",
             "The unmodified Parallel.irun/run, _check_children and _pool_worker run on virtual multiprocessing primitives; every "
             "scheduling decision (worker steps, feeder flushes, process exits, parent polls) is enumerated. Small configurations "
@@ -78,6 +85,13 @@ CLAIMED = {
             "ones with a preemption bound; every execution is judged: delivered multiset == submitted, payloads, termination, no hang.",
             "Trusted: the virtual Queue/Process semantics in mc/sched.py (feeder flush before exit; timed get raises Empty only on an empty pipe); task bodies pure; no external kill.",
             "DESIGN.md §3 C12"),
+    "C14": ("bounded-exhaustive enumeration of RouteMap programs over the complete documented R.*/rule.* alphabet x entity variants x 3 vendors through the real generators with ACL enforcement",
+            "The complete one-statement space (62 conditions x 92 actions x huawei/arista/cumulus, 8 entity variants, 5 result forms) in quick, "
+            "two-condition/two-action/two-statement combinations in thorough: no AclError, parse-back nesting equals yielded nesting, "
+            "referenced list names are defined by the list generators, and per action (error, no lines) or (lines, no error) by "
+            "differential attribution on the raw generator stream.",
+            "Trusted: mc/ref/rplref.py line grammars for references/definitions; domain: names exist and have the right type.",
+            "DESIGN.md §3 C14"),
     "C18": ("exhaustive enumeration of the finite device database (168 sequences x synthesised models x vendor registration orders x software strings) on the real HardwareView/Registry/RulebookProvider",
             "The space is finite and covered completely: every devdb sequence gets validated model strings; truth of all sequences and "
             "abbreviations, all template predicates, vendor choice under all rotations/permutations of registration, and rulebook "
@@ -90,6 +104,12 @@ CLAIMED = {
             "compared with a table-driven reference. Four recorded known findings (line-diff based upload decision).",
             "Trusted: mc/ref/filedev.py decision table; harness DeployDriver with empty command lists; stage-2 de-duplication keyed on the fields parse_result reads (guarded by a recording OldNewResult).",
             "DESIGN.md §3 C19"),
+    "C20": ("explicit-state search over job histories: every node a live interpreter forked from a cold template, every edge one job run once in a forked process, de-duplicated by a fingerprint of all process-global annet state",
+            "34 jobs (shipped corpus x 6 vendors with and without shared compiled ACLs, order_config, synthetic rulebooks whose logic writes "
+            "to its rule argument): result(j | history) == result(j | fresh process) for all histories to depth 2 (quick) / 3 (thorough, "
+            "fingerprint-pruned), deep snapshots of old/new/compiled rulebooks equal before and after every call.",
+            "Trusted: mc/statehash.py deep hasher and lru_cache content reader (CPython 3.12 layout, self-tested); third-party module state outside the fingerprint.",
+            "DESIGN.md §3 C20"),
 }
 
 NOT_YET = {}
